@@ -30,6 +30,16 @@ theorem rep_terminates (p : Pat) (h : Contract p) (req : Nat) (toks : List Nat) 
     ∃ n, repLoop (matchLen p) req toks fuel 0 0 = .ok n ∧ n ≤ toks.length :=
   repLoop_safe (matchLen p) (matchLen_safe p h) req toks fuel 0 0 (Nat.zero_le _) (by omega)
 
+/-- the fuel bound of `rep_terminates` at its smallest value (`Model/Pattern.lean` refers to it by this name):
+`len + 1` iterations always suffice for a contract-keeping inner pattern … -/
+theorem rep_fuel_tight (p : Pat) (h : Contract p) (req : Nat) (toks : List Nat) :
+    ∃ n, repLoop (matchLen p) req toks (toks.length + 1) 0 0 = .ok n ∧ n ≤ toks.length :=
+  rep_terminates p h req toks (toks.length + 1) (Nat.lt_succ_self _)
+
+/-- … and `len` do not: `any` repeated over two tokens needs a third iteration to see the empty rest and return -/
+example : repLoop (matchLen .any) 0 [0, 0] 2 0 0 = .error .outOfFuel ∧ repLoop (matchLen .any) 0 [0, 0] 3 0 0 = .ok 2 := by
+  decide
+
 /-- No combinator tree can hang, **whatever** its leaves return: a loop either returns or walks
 its cursor past the end of the slice, where `&tokens[cursor..]` panics. -/
 theorem matches_never_hangs (p : Pat) (toks : List Nat) :
@@ -72,6 +82,35 @@ theorem lintDoc_safe (p : Pat) (h : Contract p) (toks : List Nat) :
   rw [hfl] at this
   omega
 
+/-- The blanket `Linter::lint` of a `PatternLinter` cannot hang either, **whatever** the leaves return: each chunk's
+`run_on_chunk` returns or panics (`runOnChunk_never_hangs`), and there are finitely many chunks. -/
+theorem lintDoc_never_hangs (p : Pat) (toks : List Nat) : lintDoc p toks ≠ .error .outOfFuel := by
+  have key : ∀ (cs : List (List Nat)) (off : Nat), lintChunks p off cs ≠ .error .outOfFuel := by
+    intro cs
+    induction cs with
+    | nil => intro off h; simp [lintChunks] at h
+    | cons c cs ih =>
+      intro off h
+      unfold lintChunks at h
+      have h1 := runOnChunk_never_hangs p c
+      cases hr : runOnChunk p c with
+      | error e =>
+        rw [hr] at h
+        simp only at h
+        cases h
+        exact h1 hr
+      | ok ms =>
+        rw [hr] at h
+        simp only at h
+        cases hl : lintChunks p (off + c.length) cs with
+        | error e =>
+          rw [hl] at h
+          simp only at h
+          cases h
+          exact ih _ hl
+        | ok rest => rw [hl] at h; cases h
+  exact key _ 0
+
 /-! ### `find_all_matches` -/
 
 /-- `find_all_matches` never panics with a contract-keeping pattern; every returned span is a
@@ -90,6 +129,32 @@ theorem findAllMatches_safe (p : Pat) (h : Contract p) (toks : List Nat) :
     intro m hm
     have := hb m (hsub.subset hm)
     omega
+
+/-- `find_all_matches` cannot hang, **whatever** the leaves return: one `matches` per suffix, then a bounded filter. -/
+theorem findAllMatches_never_hangs (p : Pat) (toks : List Nat) : findAllMatches p toks ≠ .error .outOfFuel := by
+  have key : ∀ (toks : List Nat) (i : Nat), collectMatches p i toks ≠ .error .outOfFuel := by
+    intro toks
+    induction toks with
+    | nil => intro i h; simp [collectMatches] at h
+    | cons t ts ih =>
+      intro i h
+      unfold collectMatches at h
+      have h1 := matches_never_hangs p (t :: ts)
+      cases hr : matchLen p (t :: ts) with
+      | error e => rw [hr] at h; simp only at h; cases h; exact h1 hr
+      | ok n =>
+        rw [hr] at h
+        simp only at h
+        cases hl : collectMatches p (i + 1) ts with
+        | error e => rw [hl] at h; simp only at h; cases h; exact ih _ hl
+        | ok rest => rw [hl] at h; cases h
+  intro h
+  rw [findAllMatches_eq] at h
+  cases hc : collectMatches p 0 toks with
+  | error e => rw [hc] at h; simp only at h; cases h; exact key _ _ hc
+  | ok found =>
+    rw [hc] at h
+    cases found <;> cases h
 
 /-- Its documentation says "all non-overlapping pattern matches". That holds when the ends of
 the raw matches are monotone (e.g. every match has the same length, as for the one in-tree
@@ -184,6 +249,16 @@ example : runOnChunk (.seq (.ofList [.leaf 0, .whitespace, .leaf 0])) [0, 1, 0, 
     .ok [(0, 3), (4, 3)] := by decide
 example : lintDoc (.rep (.leaf 0) 1) [0, 0, 3, 1, 0, 2, 0] = .ok [(0, 2), (4, 1), (6, 1)] := by
   decide
+
+/-- non-vacuity of `rep_terminates`: `sample` keeps the contract; fuel `len + 1`; the theorem applied, and the value -/
+example : ∃ n, repLoop (matchLen sample) 1 [0, 1, 0, 3, 3, 0, 2, 7, 0, 1, 0, 3, 0, 2] 15 0 0 = .ok n ∧ n ≤ 14 :=
+  rep_terminates sample (by
+    simp [sample, Contract, ContractL, PatList.ofList]
+    intro toks; exact (List.takeWhile_sublist _).length_le) 1 _ 15 (by decide)
+example : repLoop (matchLen sample) 1 [0, 1, 0, 3, 3, 0, 2, 7, 0, 1, 0, 3, 0, 2] 15 0 0 = .ok 14 := by decide
+
+/-- non-vacuity of `lintDoc_safe`: `sample` (contract shown above) over a document of three chunks; the second matches whole -/
+example : lintDoc sample [0, 1, 0, 0, 2, 0, 1, 0, 4, 0, 7, 0] = .ok [(5, 6)] := by decide
 
 /-- **The contract is needed.** `fn (fun _ => 1)` is a leaf that answers 1 even on an empty
 slice — what `Invert` did before the fix. After `any` has consumed the only token it makes the
